@@ -23,56 +23,56 @@ CHECKS = {
    text="FrameDecoder.tla has no successful transition for a block regenerating more than 128 KiB (invariant Bounded05); explored over hostile frames (blocks at exactly 128 KiB and one byte more by sequences and by RLE literals, 1000 / 32800 maximum-length matches, a window-sized block after the window was filled) x all strategies, every transition replayed on the real decoder; every frame x strategy x front end additionally runs in a child process under a counting allocator with heap cap and deadline: bytes held beyond the window and heap peak must stay within window + requested + 128 KiB.",
    note="heap bound 2*(window+requested+128 KiB) + slack; bombs via sequences and RLE literals", technique=TECH),
  "C06": dict(level=MC, design="5/C06",
-   text="FrameDecoder.tla (decode_blocks with all strategies, collect, read, collect_to_writer over scripted sinks and the physical two-segment ring arithmetic, decode_from_to, StreamingDecoder read) is explored exhaustively up to a call bound per frame over materialised frames; every transition is replayed on the real FrameDecoder/StreamingDecoder with slice and fragmenting sources; delivered bytes, errors, final checksums, consumed counts and the decode_from_to contract are the violation criteria, exact intermediate values are conformance (drift) only; random legal schedules over decodecorpus / libzstd / ruzstd frames add real sizes.",
+   text="FrameDecoder.tla (decode_blocks with all strategies, collect, read, collect_to_writer over scripted sinks and the physical two-segment ring arithmetic, decode_from_to, StreamingDecoder read) is explored exhaustively up to a call bound per frame over materialised frames; every transition is replayed on the real FrameDecoder/StreamingDecoder with slice and fragmenting sources; delivered bytes, errors, final checksums, consumed counts and the decode_from_to contract are the violation criteria, exact intermediate values are conformance (drift) only; random legal schedules over decodecorpus / libzstd / ruzstd frames add real sizes. Frames incl. raw blocks straddling the ring end (rawwrap) and a zero dictionary id field; in one replay variant the buffered bytes of a frame that a Reset abandons are drained and checked first. Recorded schedules on real frames are validated against Trace_FrameDecoder.tla.",
    note="schedule space exhaustive up to MaxSteps calls per frame over the listed menus; frame contents sampled; serializer cross-checked by libzstd", technique=TECH),
  "C07": dict(level=MC, design="5/C07",
-   text="In FrameDecoder.tla Reset re-initialises every per-frame variable; TLC explores all histories (frame, progress, ending: completed / abandoned / failed at header, block header, body, checksum, missing dictionary, invalid block) with Reset enabled in every state over plain, dictionary, probe and dirty frames; every transition is replayed on one real decoder, whose behaviour after Reset must be that of a fresh decoder; probe frames (treeless / repeat-mode without previous table, match before frame start, repeat offsets at frame start) make leaked internal state observable.",
+   text="In FrameDecoder.tla Reset re-initialises every per-frame variable; TLC explores all histories (frame, progress, ending: completed / abandoned / failed at header, block header, body, checksum, missing dictionary, invalid block) with Reset enabled in every state over plain, dictionary, probe and dirty frames; every transition is replayed on one real decoder, whose behaviour after Reset must be that of a fresh decoder; probe frames (treeless / repeat-mode without previous table, match before frame start, repeat offsets at frame start) make leaked internal state observable. Six twin (dirty, probe) frame pairs, one per leak channel of the sequence tables, and a Huffman dirty frame; the same programs run differentially (fddiff): every part starting with a Reset on a used decoder is repeated on a fresh decoder and every return value and accessor compared call by call, without model predictions.",
    note="leaks are detected when they change an observable of a frame in the set; two synthetic dictionaries cross-checked with libzstd", technique=TECH),
  "C08": dict(level=MC, design="5/C08",
-   text="Decoder side: the FrameDecoder model drives all five drain paths in wrapped and unwrapped ring states over checksummed frames; after every program the calculated and stored checksums are compared with an independent XXH64 of exactly the bytes handed out. Encoder side: every frame produced by the FrameCompressor model programs and random programs (1-3 frames on a reused compressor, both levels, empty input) must end with the low 32 bits of XXH64(input).",
+   text="Decoder side: the FrameDecoder model drives all five drain paths in wrapped and unwrapped ring states over checksummed frames; after every program the calculated and stored checksums are compared with an independent XXH64 of exactly the bytes handed out. Encoder side: every frame produced by the FrameCompressor model programs and random programs (1-3 frames on a reused compressor, both levels, empty input) must end with the low 32 bits of XXH64(input). FrameCompressor.tla models the hasher (hashClean) and frames that continue the installed source without set_source (Dev_HashOnSetSource must violate Structure).",
    note="independent XXH64 implementation in the harness", technique=TECH),
  "C10": dict(level=MC, design="5/C10",
    text="FrameDecoder.tla with a truncated source: every cut point at and around every structural boundary x decode/drain/streaming/slice calls, invariants NoFinishOnPrefix and ConsumedOK, every transition replayed; an exhaustive sweep of every source length of every model frame through four entry points is judged row by row by TLC with the specification's operators (TruncPropOk); MultiFrame.tla enumerates all item sequences (frames, skippable frames, truncated/garbage/invalid items) up to 2/3 items x boundary target capacities and the real decode_all / decode_all_to_vec are run on every case; every strict prefix of small real frames at property level.",
    note="13 item kinds; truncated items only at the end of the input; regenerated sizes of compressed blocks of real frames not modelled", technique=TECH),
  "C15": dict(level=MC, design="5/C02",
-   text="Same pipeline as C02: every emitted frame is walked by an independent block-level walker (magic, header fields, block types and sizes, exactly one last block at the end, nothing after it but the checksum, block count for the input length), regenerated block sizes and every match offset (<= window and <= data produced so far) are read from the decoder's block/sequence events, and the frame size is compared with input + framing overhead; invariants OneLast / Structure of FrameCompressor.tla on every validated trace.",
+   text="Same pipeline as C02: every emitted frame is walked by an independent block-level walker (magic, header fields, block types and sizes, exactly one last block at the end, nothing after it but the checksum, block count for the input length), regenerated block sizes and every match offset (<= window and <= data produced so far) are read from the decoder's block/sequence events, and the frame size is compared with input + framing overhead; invariants OneLast / Structure of FrameCompressor.tla on every validated trace. Other matcher geometries (windows that are not powers of two, matches just inside the window) behind a wrapper that reports its window only after reset.",
    note="offsets and regenerated sizes come from decoder events (hook H3), the decode result is independently confirmed by libzstd", technique=TECH),
 
  "C01": dict(level=MC, design="5/C01",
    text="ZstdFrames.tla is the format as abstract syntax with its meaning (Exec over literals and sequences, repeat-offset rule, per-frame format state); TLC enumerates frames built from a default compressed block by one or two deviations per block (all literal kinds and size formats, 0..3 sequences, all mode triples incl. repeat modes, repeat-offset codes with and without literals, overlapping copies, raw/RLE/empty blocks, header variants) with the specified content (deep tier: full products, upper code ranges, chains of three dependent blocks: 20 108 frames); SeqStream.tla specifies the sequences bitstream bit by bit and TLC decodes every distinct block stream of those frames, comparing with the sequences meant and with the real decoder's sequence events; the harness serialises each with its own bit packers (accepted only where libzstd agrees with the specification) and decodes it through four entry points; random legal schedules over decodecorpus / libzstd (levels -5..22, window logs, long-distance mode, flags, flush patterns) / ruzstd frames with the original bytes as oracle; repeat-offset events of those decodes are row-checked against RepStep.",
    note="exhaustive over the abstract feature graph with small sizes; byte contents and large sizes sampled; serializer trusted only where libzstd confirms", technique=TECH),
  "C03": dict(level="fault_enumeration", design="5/C03",
-   text="Fault enumeration driven by the specifications: every valid frame enumerated by ZstdFrames.tla and every frame of the protocol model's sets is faulted at every byte position with seven fault values plus insertion/deletion, both synthetic dictionaries at every position and truncation length, seeded multi-byte mutations of real frames, the saved fuzz artefacts; each case through four entry points in a release build and a debug-assertion build, only Ok/Err allowed, then reset-and-reuse on a good frame; watchdog and allocator cap name the case on hang / runaway allocation; the ring-buffer operations and raw copies recorded during a sample of the cases are validated against RingIdx.tla (enabledness = preconditions of the unsafe methods, copies inside the allocation, reads of written cells only, no write into live data).",
+   text="Fault enumeration driven by the specifications: every valid frame enumerated by ZstdFrames.tla and every frame of the protocol model's sets is faulted at every byte position with seven fault values plus insertion/deletion, both synthetic dictionaries at every position and truncation length, seeded multi-byte mutations of real frames, the saved fuzz artefacts; each case through four entry points in a release build and a debug-assertion build, only Ok/Err allowed, then reset-and-reuse on a good frame; watchdog and allocator cap name the case on hang / runaway allocation; the ring-buffer operations and raw copies recorded during a sample of the cases are validated against RingIdx.tla (enabledness = preconditions of the unsafe methods, copies inside the allocation, reads of written cells only, no write into live data). Structured faults: every block cut short consistently to every length (block_cut), Huffman literals cut to every compressed size (literals_cut), frames with accuracy-log-9 tables; an executor brought down by the decoder (heap corruption, segmentation fault, abort) is a violation.",
    note="not exhaustive over byte strings; UB outside ringbuffer.rs out of scope; hang = no progress for 30 s", technique="model-driven fault enumeration + TLA+ trace validation of ring events (TLC)"),
  "C09": dict(level=MC, design="5/C09",
    text="ZstdFrames.tla with a dictionary (entropy tables, repeat offsets and content as the starting state): TLC enumerates every (literals before, offset, length) around the dictionary/output boundary and frames whose first block uses the dictionary state, with the specified content or 'invalid'; each is serialised against a synthetic Zstandard-format dictionary (cross-checked with libzstd) and decoded through four entry points; the FrameDecoder model over the dictionary frame set covers a missing dictionary, two dictionaries and histories mixing dictionary and plain frames; libzstd-trained dictionaries with inputs compressed at many levels, with and without dictionary id, oracle = input.",
    note="exhaustive around the boundary for one 64-byte dictionary; trained dictionaries sampled", technique=TECH),
  "C11": dict(level=MC, design="5/C11",
-   text="WindowLimit.tla is the accept/reject decision over size ranks (clamp to the format maximum); TLC checks its soundness properties and enumerates descriptors x boundary limits (requested-1/0/+1, 0, around the default, around the format maximum, 2^64-1) x window / single-segment declaration x decoder history x seven front ends with the specified outcome; every case is materialised and run on the real front end under the counting allocator: accept/reject, reported requested/max values, largest allocation before a rejection.",
+   text="WindowLimit.tla is the accept/reject decision over size ranks (clamp to the format maximum); TLC checks its soundness properties and enumerates descriptors x boundary limits (requested-1/0/+1, 0, around the default, around the format maximum, 2^64-1) x window / single-segment declaration x decoder history x seven front ends with the specified outcome; every case is materialised and run on the real front end under the counting allocator: accept/reject, reported requested/max values, largest allocation before a rejection. Cases incl. a window descriptor next to a content size field (the decision is about the declared window).",
    note="20 descriptors in the quick tier, all 256 in the thorough tier; acceptance of windows above 64 MiB only on paths that do not pre-allocate", technique=TECH),
  "C12": dict(level=MC, design="5/C12",
-   text="FSE.tla is RFC 8878 4.1. Decoder: FSECases.tla enumerates normalised distributions (less-than-one entries, zero runs), proves ReadDesc/DescBytes inversion and state partition on each and writes description + specified table; the real build_decoder must produce exactly that table. Encoder: normalisation under production parameters, every encoder state, the written description and short 1-/2-state streams are dumped as rows and judged by FSERows.Ok; predefined tables of both sides equal Table(6|6|5, RFC distribution). What the compressor really writes: ParseClasses.tla (HistRows) models the accuracy-log choice of the table builder and enumerates code histograms reaching every regime incl. the clamp of each field; a valid parse with exactly that histogram is compressed through the public Matcher trait, the frame must decode with both decoders, and the table descriptions found in the block are read by TLC with ReadDesc (limits 9/8/9, normalised, every used code encodable).",
+   text="FSE.tla is RFC 8878 4.1. Decoder: FSECases.tla enumerates normalised distributions (less-than-one entries, zero runs), proves ReadDesc/DescBytes inversion and state partition on each and writes description + specified table; the real build_decoder must produce exactly that table. Encoder: normalisation under production parameters, every encoder state, the written description and short 1-/2-state streams are dumped as rows and judged by FSERows.Ok; predefined tables of both sides equal Table(6|6|5, RFC distribution). What the compressor really writes: ParseClasses.tla (HistRows) models the accuracy-log choice of the table builder and enumerates code histograms reaching every regime incl. the clamp of each field; a valid parse with exactly that histogram is compressed through the public Matcher trait, the frame must decode with both decoders, and the table descriptions found in the block are read by TLC with ReadDesc (limits 9/8/9, normalised, every used code encodable). Decoder cases also run on long-lived table objects (reset + rebuild, reinit_from) and against reader limits (accuracy log, symbol count: accepted exactly within them).",
    note="decoder accuracy log 5 (6 in thorough) over a value menu; encoder tables up to log 9; streams of 4..9 symbols", technique=TECH),
  "C13": dict(level=MC, design="5/C13",
    text="Huffman.tla is RFC 8878 4.2. Decoder: HufCases.tla enumerates all explicit weight vectors up to a bound, classifies them and writes description, literals using every symbol and the bit stream; the real decoder must decode valid ones to exactly those literals and refuse incomplete ones. Encoder: for alphabet sizes 2..256 x rank orders x placements of unused symbols the code lengths, code values, the written description (direct / FSE compressed < 128 bytes) and 1-/4-stream encodings are judged by HufRows.Ok; boundary-length literals round-trip through both real decoders.",
    note="decoder vectors up to 4 (5) entries over weights 0..4; complete-but-not-minimal descriptions unconstrained", technique=TECH),
  "C14": dict(level=MC, design="5/C14",
-   text="ZstdFormat.tla holds the RFC tables and header layouts (FormatTheorems: contiguous code ranges, count codec inversion); the implementation's function tables of both sides are dumped through pass-through hooks (every literal/match length, offsets at all code boundaries and random 32-bit values, repeat-offset function, every sequence count through writer and parser, all literals-header patterns, block headers incl. all 2^24 as per-class summaries, every frame descriptor x window byte, the compressor's header writers) and TLC judges every row with FormatRows.Ok; whole frames built around one header value (raw / RLE blocks, raw / RLE / Huffman literals, literals plus a match, sequence counts) at every size-format boundary and at the 128 KiB limit are decoded through four entry points: decodable iff stored and regenerated size <= 128 KiB, content exact.",
+   text="ZstdFormat.tla holds the RFC tables and header layouts (FormatTheorems: contiguous code ranges, count codec inversion); the implementation's function tables of both sides are dumped through pass-through hooks (every literal/match length, offsets at all code boundaries and random 32-bit values, repeat-offset function, every sequence count through writer and parser, all literals-header patterns, block headers incl. all 2^24 as per-class summaries, every frame descriptor x window byte, the compressor's header writers) and TLC judges every row with FormatRows.Ok; whole frames built around one header value (raw / RLE blocks, raw / RLE / Huffman literals, literals plus a match, sequence counts) at every size-format boundary and at the 128 KiB limit are decoded through four entry points: decodable iff stored and regenerated size <= 128 KiB, content exact. Frames with a match 128 MiB back (27 + 16 + 15 extra bits in one sequence) at all eight bit alignments; sequence headers on sources of exactly 1..4 bytes.",
    note="quick tier strides literal/match lengths and counts (every 5th value + all boundaries); thorough: every value", technique="TLA+ specification + row validation by TLC of dumped implementation tables"),
  "C16": dict(level=MC, design="5/C16",
-   text="ParseClasses.tla enumerates the classes of valid parses the block encoder distinguishes (sequence-count forms and boundaries, code-set shapes for the FSE builder, literals decisions, and code histograms that drive the table builder into every accuracy-log regime incl. its clamps); each class is materialised as a concrete valid parse (data synthesised from the plan) and driven through the public Matcher trait; ALL valid parses of all binary blocks of 3..7 bytes after histories of 0/3/5 bytes, a sample confirmed valid by TLC with Matcher!SeqsOk; seeded random valid parses of full blocks; outcome: no panic, decode by ruzstd and libzstd = input.",
+   text="ParseClasses.tla enumerates the classes of valid parses the block encoder distinguishes (sequence-count forms and boundaries, code-set shapes for the FSE builder, literals decisions, and code histograms that drive the table builder into every accuracy-log regime incl. its clamps); each class is materialised as a concrete valid parse (data synthesised from the plan) and driven through the public Matcher trait; ALL valid parses of all binary blocks of 3..7 bytes after histories of 0/3/5 bytes, a sample confirmed valid by TLC with Matcher!SeqsOk; seeded random valid parses of full blocks; outcome: no panic, decode by ruzstd and libzstd = input. Chains of three dependent blocks through a user matcher (new / treeless / discarded Huffman tables in every order); the scripted matcher configures its window in reset and every executed offset is checked against the declared window.",
    note="quick tier runs every 4th tiny parse; large parses sampled", technique=TECH),
  "C17": dict(level=MC, design="5/C17",
    text="Matcher.tla: the window bookkeeping of the built-in driver explored exhaustively (window bounded, base offsets are true distances; off-by-one variant must be found), and the contract SeqsOk; the real MatchGeneratorDriver (hook: arbitrary slice size / slices per window) is driven over all binary strings for a set of block-length tuples (ternary for shorter ones), 1..3 slices, match/skip per block, reset-and-reuse; block lengths incl. tuples where one block pushes out two entries at once; every run reporting a match is a row judged by MatcherRows.Ok (true match, distance within the advertised window and the committed data, tiling; deviation from the as-built eviction Matcher!Evict is drift only); full-size seeded runs with mixed block lengths and recycled buffers checked with the same rule.",
    note="slices of 5..8 bytes exhaustively; full-size behaviour sampled", technique=TECH),
  "C18": dict(level=MC, design="5/C18",
-   text="IoLayer.tla specifies read_exact, take+read and write_all over scripted readers/writers; TLC enumerates all scripts up to 3 (4) answers x buffer sizes x limits; a second harness crate is built four times (std/no_std x hash/no hash) against the current tree; every IoLayer case is replayed against ruzstd::io of each build; a common program set (decode every model frame three ways, compress one input per content class at both levels with a fresh compressor and with ONE compressor reused over all inputs, each frame decoded back) runs in all four and is compared in lock step under the Features refinement mapping (no-hash frame = hash frame minus checksum flag and trailer).",
+   text="IoLayer.tla specifies read_exact, take+read and write_all over scripted readers/writers; TLC enumerates all scripts up to 3 (4) answers x buffer sizes x limits; a second harness crate is built four times (std/no_std x hash/no hash) against the current tree; every IoLayer case is replayed against ruzstd::io of each build; a common program set (decode every model frame three ways, compress one input per content class at both levels with a fresh compressor and with ONE compressor reused over all inputs, each frame decoded back) runs in all four and is compared in lock step under the Features refinement mapping (no-hash frame = hash frame minus checksum flag and trailer). IoLayer.tla also specifies the byte-slice reader and writer (every buffer size incl. one byte at the end).",
    note="program set small; I/O layer exhaustive within bounds", technique=TECH),
  "C19": dict(level=MC, design="5/C19",
    text="Cli.tla maps scenarios (level option, output path, input kind, output location, archive kind, output path free or holding an older shorter / longer file) to specified effects; TLC enumerates all 324 scenarios; each runs against the freshly built ruzstd-cli in a scratch directory: exit status class, no panic, no new file after a failed compress, round trip through the tool and through libzstd on success (the output is exactly the result: nothing of an older file remains).",
    note="non-zero exit without panic counts as reported failure", technique="TLA+ scenario specification enumerated by TLC + replay on the real binary"),
  "C20": dict(level=MC, design="5/C20",
-   text="DictBuilder.tla is the control flow and size arithmetic of create_raw_dict_from_source; TLC proves on a 14^3 grid that every step stays inside its precondition and that the output bound is <= requested; the real builder runs on the same grid x source kinds (seeded RNG, watchdog) and every run is a row judged by TLC (no panic, finished, length <= requested and <= structural bound); estimates beyond 32 bits against the documented promise. ReservoirFill.tla is the sampling loop as a state machine over readers that cut their answers: TLC checks termination as a liveness property (the shrink-only variant must be found to loop), every (length, script) it explored is replayed through a scripted reader, and the grid also runs with readers answering 1 / 7 / 100 bytes at a time.",
+   text="DictBuilder.tla is the control flow and size arithmetic of create_raw_dict_from_source; TLC proves on a 14^3 grid that every step stays inside its precondition and that the output bound is <= requested; the real builder runs on the same grid x source kinds (seeded RNG, watchdog) and every run is a row judged by TLC (no panic, finished, length <= requested and <= structural bound); estimates beyond 32 bits against the documented promise. ReservoirFill.tla is the sampling loop as a state machine over readers that cut their answers: TLC checks termination as a liveness property (the shrink-only variant must be found to loop), every (length, script) it explored is replayed through a scripted reader, and the grid also runs with readers answering 1 / 7 / 100 bytes at a time. Grid incl. estimates whose sample ends in a segment shorter than one k-mer (TailsCovered); watchdogs measure CPU time.",
    note="three source kinds per grid point; as-built output bound is conformance only (drift)", technique=TECH),
 }
 NOT_YET = {}
